@@ -586,7 +586,17 @@ class BasePool(typing.Generic[C]):
         started_at: float,
     ) -> None:
         self._log_to_snapshot(dbname=from_block.dbname, event='transfer-from')
-        await self._disconnect(from_conn, from_block)
+        try:
+            await self._disconnect(from_conn, from_block)
+        except Exception:
+            # The old connection is gone either way and its capacity has
+            # been given back; the receiving block is counting on the
+            # pending connection, so carry on with the connect.
+            logger.warning(
+                "Failed to close a connection to backend database: %s",
+                from_block.dbname,
+                exc_info=True,
+            )
         from_block.log_connection('transferred out')
         self._cur_capacity += 1
         await self._connect(to_block, started_at, 'transferred in')
